@@ -160,9 +160,9 @@ func (c chainBridge) InsertChain(momentums []*nom.DetailedMomentum) (int, error)
 		if target == nil || target.Identifier() != head.Previous() {
 			log.Error("can't link momentums to insert", "first")
 			if target == nil {
-				return 0, errors.Errorf("can't link momentums to insert. First momentum Prev is %v but we have nothing at that height", head.Previous())
+				return start, errors.Errorf("can't link momentums to insert. First momentum Prev is %v but we have nothing at that height", head.Previous())
 			}
-			return 0, errors.Errorf("can't link momentums to insert. First momentum Prev is %v but he have %v", head.Previous(), target.Identifier())
+			return start, errors.Errorf("can't link momentums to insert. First momentum Prev is %v but he have %v", head.Previous(), target.Identifier())
 		}
 
 		// check that the distance allows rollback
